@@ -1,7 +1,63 @@
-"""Symbolic legs (Apalache)."""
-import os, re, time
+"""Symbolic legs (Apalache): C23 row search for ALL 2^64 rows, one obligation per order."""
+import os, re, shutil, subprocess, time
+from concurrent.futures import ThreadPoolExecutor
 import vlib
+
+SYM = os.path.join(vlib.SPEC, "sym")
+SMALL_X = {
+    0: (1, "v[i]"),
+    1: (2, "v[i] \\/ V(i + 1) \\/ (i % 2 = 1)"),
+    5: (32, "~((i = 0 /\\ (\\A j \\in Bits : j < 32 => ~v[j])) \\/ (i = 32 /\\ ~(\\A j \\in Bits : j < 32 => ~v[j]) "
+            "/\\ (\\A j \\in Bits : j >= 32 => ~v[j])))"),
+    6: (64, "~(i = 0 /\\ (\\A j \\in Bits : ~v[j]))"),
+}
+SUB_W = {2: 4, 3: 8, 4: 16}
+
+
+def gen(k, workdir):
+    if k in SMALL_X:
+        w, x = SMALL_X[k]
+        t = open(os.path.join(SYM, "RowSearchSymSmall.tla.in")).read()
+        t = t.replace("@K@", str(k)).replace("@W@", str(w)).replace("@X@", x)
+    else:
+        t = open(os.path.join(SYM, "RowSearchSym.tla.in")).read()
+        t = t.replace("@K@", str(k)).replace("@W@", str(SUB_W[k]))
+    p = os.path.join(workdir, "RowSearchSym_%d.tla" % k)
+    open(p, "w").write(t)
+    return p
+
+
+def run_order(k, workdir, timeout):
+    p = gen(k, workdir)
+    t0 = time.time()
+    cmd = ["timeout", str(timeout), "apalache-mc", "check", "--init=Init", "--inv=Inv", "--length=0",
+           "--out-dir=" + os.path.join(workdir, "out%d" % k), p]
+    r = subprocess.run(cmd, stdout=subprocess.PIPE, stderr=subprocess.STDOUT, text=True, cwd=workdir)
+    ok = "The outcome is: NoError" in r.stdout
+    err = "The outcome is: Error" in r.stdout
+    return {"order": k, "ok": ok, "refuted": err, "s": round(time.time() - t0, 1), "tail": r.stdout[-400:] if not ok else ""}
 
 
 def rowsearch_symbolic(res, tier):
-    res.notes.append("symbolic leg (Apalache, all 2^64 rows) not wired yet")
+    """thorough tier: all orders 0..6; quick tier: not run (minutes per order on a loaded machine)"""
+    if tier != "thorough":
+        res.notes.append("symbolic leg (Apalache, all 2^64 rows per order, spec/sym/RowSearchSym*.tla.in) runs in the thorough tier")
+        return
+    workdir = os.path.join(vlib.WORK, "apa-%d" % os.getpid())
+    os.makedirs(workdir, exist_ok=True)
+    try:
+        with ThreadPoolExecutor(max_workers=4) as ex:
+            rs = list(ex.map(lambda k: run_order(k, workdir, 7000), range(7)))
+    finally:
+        shutil.rmtree(workdir, ignore_errors=True)
+    res.cov["symbolic"] = {"tool": "apalache-mc 0.58 check --length=0 --inv=Inv", "obligations": 7,
+                           "discharged": sum(1 for r in rs if r["ok"]), "per_order": rs,
+                           "statement": "for every row value (2^64) the word whose lowest set/clear bit the code takes marks exactly the "
+                                        "lowest aligned all-zero block, and is empty iff none exists"}
+    for r in rs:
+        if r["refuted"]:
+            # the transcription of the shipped bit trick is refuted: the row search is wrong for some row
+            res.add_failures([{"prop": "C23", "check": "symbolic-transcription-refuted", "run": "apalache order %d" % r["order"],
+                               "line": 0, "event": {"ev": "apalache", "order": r["order"]}, "lines": []}])
+        elif not r["ok"]:
+            res.notes.append("symbolic leg order %d inconclusive (timeout / tool error): %s" % (r["order"], r["tail"][-200:]))
